@@ -53,6 +53,7 @@ type ioObj struct {
 	pport  int // pkt: peer port
 	closed bool
 	broken bool // descriptor closed underneath
+	full   bool // the send buffer was filled by the harness: writes would-block until the peer drains
 	phold  bool // ... and its number re-occupied by an inert placeholder (an eventfd), so that nothing else can take it
 	rd, wr *ioOp
 	sent   int // bytes the peer has written towards the object
@@ -114,6 +115,27 @@ func newOwnPeer(ioc *sonic.IO, host string) (*multicast.UDPPeer, error) {
 		}
 	}
 	return nil, err
+}
+
+// fastFill makes writes on a loopback TCP socket would-block: a minimal send buffer, a fixed receive buffer on the
+// peer (large enough that the peer advertises the window again as soon as it reads — with a tiny one the sender is left
+// to its persist timer and "the peer drains" takes seconds), then raw writes until EAGAIN (some 200 KB, well under a
+// millisecond; on loopback the segments are delivered and acknowledged in the writer's own context, so the state is
+// stable at once).
+func fastFill(fd, peer int) {
+	syscall.SetsockoptInt(fd, syscall.SOL_SOCKET, syscall.SO_SNDBUF, 1)
+	syscall.SetsockoptInt(peer, syscall.SOL_SOCKET, syscall.SO_RCVBUF, 65536)
+	chunk := make([]byte, 16384)
+	for tries := 0; tries < 3; tries++ {
+		for {
+			if _, err := syscall.Write(fd, chunk); err != nil {
+				break
+			}
+		}
+		if !kern.WouldNotBlockWrite(fd) {
+			return
+		}
+	}
 }
 
 func lowestFreeFd() int {
@@ -396,6 +418,18 @@ func (d *ioDriver) behave(op *ioOp) {
 		}
 		list = append(list, beh{"close-other", func() { d.close(oth) }})
 	}
+	if d.c03 && len(d.timers) > 0 && d.timers[0].armed && !d.timers[0].closed {
+		// the usual "push the timeout back on every message": cancel the armed timer and schedule it afresh, from an
+		// I/O completion — possibly in the very poll cycle in which the old schedule's expiry is already queued
+		t := d.timers[0]
+		list = append(list, beh{"push-the-timer-back", func() {
+			if err := t.t.Cancel(); err != nil {
+				d.fail("timer.Cancel/error", "Cancel: %v", err)
+			}
+			t.armed = false
+			d.armTimer(t, 10*time.Second)
+		}})
+	}
 	k := d.x.Deviate(len(list), "handler of "+o.name+"."+op.kind)
 	if k > 0 {
 		d.x.Note("  handler of %s.%s#%d: %s", o.name, op.kind, op.id, list[k].name)
@@ -437,7 +471,12 @@ func (d *ioDriver) start(o *ioObj, kind string, variant, chain int) {
 	case "readfrom":
 		o.rd = op
 		op.buf = make([]byte, 16)
-		o.pkt.AsyncReadFrom(op.buf, func(err error, n int, _ net.Addr) { d.complete(op, err, n) })
+		if variant == 2 {
+			op.all = true
+			o.pkt.AsyncReadAllFrom(op.buf, func(err error, n int, _ net.Addr) { d.complete(op, err, n) })
+		} else {
+			o.pkt.AsyncReadFrom(op.buf, func(err error, n int, _ net.Addr) { d.complete(op, err, n) })
+		}
 	case "writeto":
 		o.wr = op
 		op.buf = []byte{0xB0, 0xB1}
@@ -625,6 +664,40 @@ func (d *ioDriver) pollOne() (int, error) {
 	return n, err
 }
 
+// pollAction is the "poll" action: PollOne; under C03 the other ways of running the loop once are deviations —
+// RunOneFor(1 ms), and RunOne (which blocks) when poll(2) on the epoll descriptor says something is ready.
+func (d *ioDriver) pollAction() {
+	variant := 0
+	if d.c03 {
+		variant = d.x.Deviate(3, "loop run once through PollOne / RunOneFor(1ms) / RunOne")
+	}
+	ready := kern.Readable(d.epfd)
+	if variant == 0 || (variant == 2 && !ready) {
+		d.pollOne()
+		return
+	}
+	before := d.handlers
+	var err error
+	name := "RunOneFor(1ms)"
+	if variant == 1 {
+		err = d.ioc.RunOneFor(time.Millisecond)
+	} else {
+		name = "RunOne"
+		err = d.ioc.RunOne()
+	}
+	ran := d.handlers - before
+	d.x.Note("%s -> err=%v handlers=%d", name, err, ran)
+	if ran > 0 && err != nil {
+		d.fail("io."+name+"/handlers-ran-but-error", "%s dispatched %d handlers and returned %v", name, ran, err)
+	}
+	if ready && err != nil {
+		d.fail("io."+name+"/ready-but-error", "the epoll descriptor was readable, %s returned %v", name, err)
+	}
+	if !ready && ran == 0 && !errors.Is(err, sonicerrors.ErrTimeout) {
+		d.fail("io."+name+"/nothing-ready-but-no-timeout", "nothing was ready and nothing ran, %s returned %v", name, err)
+	}
+}
+
 // drain runs the loop until quiescent and reports operations that are ready but never complete.
 func (d *ioDriver) drain() {
 	h := len(d.inflight()) + 3
@@ -679,7 +752,7 @@ func (d *ioDriver) actions() []ioAction {
 				}
 			case o.pkt != nil:
 				if o.rd == nil {
-					add("readfrom("+o.name+")", func() { d.start(o, "readfrom", d.x.Deviate(2, "readfrom variant"), 0) })
+					add("readfrom("+o.name+")", func() { d.start(o, "readfrom", d.x.Deviate(3, "readfrom variant"), 0) })
 				}
 				if o.wr == nil {
 					add("writeto("+o.name+")", func() { d.start(o, "writeto", d.x.Deviate(2, "writeto variant"), 0) })
@@ -740,6 +813,31 @@ func (d *ioDriver) actions() []ioAction {
 					add("peerSend("+o.name+")", func() { o.peerSend(3) })
 				}
 			}
+			// a write that cannot complete: the send buffer is full and the peer is not reading (the state in which a
+			// deferred write really waits for the poller, for as long as the scenario wants)
+			if (o.kind == "tcp" || o.kind == "acc") && !o.closed && !o.broken && o.wr == nil {
+				if !o.full {
+					add("fillSendBuffer("+o.name+")", func() {
+						fastFill(o.rawfd, o.peer)
+						if kern.WouldNotBlockWrite(o.rawfd) {
+							d.x.Inconclusive("the send buffer did not stay full")
+						}
+						o.full = true
+					})
+				} else {
+					add("peerDrains("+o.name+")", func() {
+						dl := time.Now().Add(settleGuard)
+						for !kern.WouldNotBlockWrite(o.rawfd) {
+							drainAll(o.peer)
+							if time.Now().After(dl) {
+								d.x.Inconclusive("the socket did not become writable")
+							}
+							kern.Poll(o.rawfd, unix.POLLOUT, 2)
+						}
+						o.full = false
+					})
+				}
+			}
 			switch o.kind {
 			case "tcp", "acc", "adp":
 				add("peerHalfClose("+o.name+")", func() {
@@ -784,7 +882,7 @@ func (d *ioDriver) actions() []ioAction {
 			})
 		}
 	}
-	add("poll", func() { d.pollOne() })
+	add("poll", func() { d.pollAction() })
 	if d.c03 {
 		d.c03Actions(add)
 	}
